@@ -23,6 +23,8 @@ def opOf (s : String) : Option Op :=
   | "partition-gpt" => some .partitionGpt | "partition-mbr" => some .partitionMbr
   | "writepart" => some .writePart
   | "gettable" => some .getTable | "readpart" => some .readPart | "getfs" => some .getFs
+  -- further disk-level readers: same class, same answer
+  | "getpartition" => some .getTable | "verify-table" => some .getTable
   | "mkdir" => some .mkdir | "mkdir-nested" => some .mkdirNested | "rename" => some .rename
   | "remove" => some .remove | "remove-dirfile" => some .removeDirfile | "setlabel" => some .setLabel
   -- the same calls with the value already there, or retried at once: the model's answer does not depend on arguments
@@ -48,9 +50,39 @@ def opCase (args : List String) : String :=
     s!"out={out}\tw={r.writes.length}"
   | _, _ => "unknown"
 
+def genRows : List CtorRow := decodeRows Generated.ReadOnly.ctorTable
+
+/-- readonly.ctor ctor=<0..4|refusing|nowriter> a=<n|default> b=<0|1> handle=<access mode of the caller's handle, file.New only> sub=<depth>
+    →  open=ok|refused acc=<O_ACCMODE of the handle|-> w=ok|refused
+    Answered from the regenerated constructor table; `sub` wraps the backend in that many backend.Sub. -/
+def ctorCase (args : List String) : String :=
+  let depth := argNatD args "sub" 0
+  -- ob=1: read-only is asked for through diskfs.OpenBackend(b, WithOpenMode(ReadOnly)) (as-found switch regenerated)
+  let ob (s : Stor) : Stor :=
+    if argNatD args "ob" 0 == 1 then openBackend Generated.ReadOnly.openBackendHonoursMode true s else s
+  let wrap (s : Stor) : Stor := ob (subs (List.replicate depth (0, 0)) s)
+  let wstr (s : Stor) : String := if (wrap s).toStorage.ro then "refused" else "ok"
+  match (arg args "ctor").getD "" with
+  | "refusing" => s!"open=ok\tacc=-\tw={wstr .refusing}"
+  | "memrw" => s!"open=ok\tacc=-\tw={wstr (.raw false)}"
+  | "nowriter" => s!"open=ok\tacc=-\tw={wstr (.rawNoWriter (argNatD args "a" 0 == 1))}"
+  | c =>
+    let a := match (arg args "a").getD "" with
+      | "default" => Generated.ReadOnly.openDefaultMode
+      | x => x.toNat!
+    match findRow genRows c.toNat! a (argNatD args "b" 0) with
+    | none => "no-such-constructor"
+    | some r =>
+      match r.backend with
+      | none => "open=refused\tacc=-\tw=refused"
+      | some s =>
+        let acc := if r.opened == 1 then accMode r.flags else argNatD args "handle" 0
+        s!"open=ok\tacc={acc}\tw={wstr s}"
+
 end Driver.ReadOnly
 
 def main : IO Unit := Driver.runLoop fun op args =>
   match op with
   | "readonly.op" => Driver.ReadOnly.opCase args
+  | "readonly.ctor" => Driver.ReadOnly.ctorCase args
   | _ => "unknown-op"
